@@ -36,7 +36,7 @@ OTHER_KIND_LINES = ["  0 = B 120000", "  0 = TS 4", "  0 = TS 4 3", "  0 = A 500
 def required(tier):
     return ["accept:N:digits1", "accept:N:digits>=20", "accept:N:digits40", "accept:S:digits40", "accept:E", "accept:padded",
             "accept:leading_zeros", "reject:other_kind", "reject:S_index", "reject:N_index", "reject:E_multiword",
-            "nearmiss:accept", "nearmiss:reject", "dontcare", "section_route", "line_text_shared_with_events_section"]
+            "nearmiss:accept", "nearmiss:reject", "dontcare", "section_route", "line_text_shared_with_events_section", "accept:line_longer_than_128_chars"]
 
 
 def shards(tier, seed):
@@ -45,7 +45,7 @@ def shards(tier, seed):
 
 
 def digits(rng, k=None):
-    k = k or rng.choice([1, 1, 2, 3, 5, 8, 12, 20, 33, 40])
+    k = k or rng.choice([1, 1, 2, 3, 5, 8, 12, 20, 33, 40, 40, 71, 100])
     s = "".join(rng.choice("0123456789") for _ in range(k))
     return s
 
@@ -53,8 +53,8 @@ def digits(rng, k=None):
 def canonical(rng):
     kind = rng.choice("NNNSE")
     t, ln = digits(rng), digits(rng)
-    pad_l = rng.choice(["  ", "  ", "", " ", "\t", "    ", " \t "])
-    pad_r = rng.choice(["", "", " ", "  ", "\t", " \t"])
+    pad_l = rng.choice(["  ", "  ", "", " ", "\t", "    ", " \t ", " " * 140, "\t" * 70 + " " * 70])
+    pad_r = rng.choice(["", "", " ", "  ", "\t", " \t", " " * 200])
     if kind == "N":
         core = f"{t} = N {rng.randrange(8)} {ln}"
     elif kind == "S":
@@ -127,6 +127,8 @@ def judge_line(rec, line, seen, origin):
         rec.cls(f"nearmiss:{v[0]}")
     if v[0] == "accept":
         rec.cls(f"accept:{v[1]}")
+        if len(line) > 128:
+            rec.cls("accept:line_longer_than_128_chars")
         core = line.strip(" \t")
         nd = len(core.split(" ")[0])
         if v[1] in "NS":
@@ -173,6 +175,13 @@ def section_route(rec, rng, pool_reject):
                 te.append([t, w])
                 body.append(line)
                 shared.append((t, line, w[1:-1]))
+            tr = case["truth"]["tracks"][key]
+            t2 = max([t] + [p[0] for p in tr["phrases"]] + [e[0] for e in tr["tevents"]]) + rng.randint(1, 9)
+            lp, rp = rng.choice([" " * 150, "\t" * 130, "  "]), rng.choice([" " * 180, "", "\t" * 140])
+            tr["phrases"].append([t2, 7])
+            body.append(f"{lp}{t2} = S 2 {'0' * 120}7{rp}")
+            tr["tevents"].append([t2 + 1, "w" * 150])
+            body.append(f"{lp}{t2 + 1} = E {'w' * 150}{rp}")
             for _ in range(rng.choice([0, 3, 10])):
                 ln = rng.choice(pool_reject)
                 if ln not in ("{", "}"):
